@@ -522,6 +522,20 @@ func c10Bytewise(r *rand.Rand, valid []byte, nTrunc, nRandom int) []c10Mutant {
 	add("shape:bstr-claims-2^63", "9", []byte{0x5b, 0x80, 0, 0, 0, 0, 0, 0, 0})
 	add("shape:arr-claims-2^64-1", "9", []byte{0x9b, 0xff, 0xff, 0xff, 0xff, 0xff, 0xff, 0xff, 0xff})
 	add("shape:map-claims-2^64-1", "9", []byte{0xbb, 0xff, 0xff, 0xff, 0xff, 0xff, 0xff, 0xff, 0xff})
+	// the largest counts the decoder accepts, claimed with nothing behind them: bare, inside a message array,
+	// as the protected / unprotected header of a COSE object, and nested in each other
+	arr, mp, bs := []byte{0x9a, 0x00, 0x01, 0x86, 0x9f}, []byte{0xba, 0x00, 0x00, 0xc3, 0x4f}, []byte{0x5a, 0x00, 0x01, 0x86, 0x9f}
+	add("shape:claims-max-array", "5", arr)
+	add("shape:claims-max-map", "5", mp)
+	add("shape:claims-max-bstr", "5", bs)
+	add("shape:claims-max-in-message", "6", append([]byte{0x81}, arr...))
+	add("shape:claims-max-map-in-message", "6", append([]byte{0x81}, mp...))
+	add("shape:claims-max-cose-protected", "11", append(append([]byte{0xd2, 0x84, 0x45}, mp...), 0xa0, 0x40, 0x40))
+	add("shape:claims-max-cose-protected-untagged", "10", append(append([]byte{0x84, 0x45}, mp...), 0xa0, 0x40, 0x40))
+	add("shape:claims-max-cose-unprotected", "8", append([]byte{0xd2, 0x84, 0x40}, mp...))
+	add("shape:claims-max-cose-payload", "12", append(append([]byte{0xd2, 0x84, 0x43, 0xa1, 0x01, 0x26, 0xa0, 0x45}, mp...), 0x40))
+	add("shape:claims-max-nested-arrays", "500", rep(arr, 500))
+	add("shape:claims-max-nested-maps", "600", rep(append(append([]byte{}, mp...), 0x00), 600))
 	return out
 }
 
